@@ -16,7 +16,7 @@ RInit ==
     /\ prog = C.prog
     /\ mem = InitMem([i \in 1..BufSize |-> C.buf0[i]], C.prog.funcs[1].lrefs)
     /\ frames = <<[f |-> 1, id |-> 0, va |-> <<>>, pc |-> 1,
-                   regs |-> [r \in 1..Len(C.prog.funcs[1].regty) |-> IF r = 1 THEN PtrV(1, 0) ELSE UndefV], base |-> 6, ovf |-> NoOvf]>>
+                   regs |-> [r \in 1..Len(C.prog.funcs[1].regty) |-> IF r = 1 THEN PtrV(1, 0) ELSE UndefV], base |-> 7, ovf |-> NoOvf]>>
     /\ log = <<>> /\ status = "run" /\ why = "" /\ result = <<>> /\ steps = 0
 RNext == Run \/ Finish
 (* the case number travels in `slot` (unused while running) *)
